@@ -513,6 +513,28 @@ static void c17_elem(std::mt19937_64& rng, bool thorough)
   }
 }
 
+// arrays longer than the range of a narrow index type: a negative 8-bit (16-bit) index that is
+// merely converted to unsigned is smaller than the length
+static void c17_long(std::mt19937_64& rng)
+{
+  static tainted<char[300], Sbx> app300;
+  auto p300 = sb->malloc_in_sandbox<char[300]>();
+  auto& vol300 = *p300;
+  static tainted<short[40000], Sbx> app40k;
+  for (int w = 0; w < 2; w++) {
+    idx_sweep<decltype(app300), int8_t>(rng, app300, "T", "char", 300, 1, w, true);
+    idx_sweep<decltype(app300), uint8_t>(rng, app300, "T", "char", 300, 1, w, true);
+    idx_sweep<decltype(vol300), int8_t>(rng, vol300, "V", "char", 300, 1, w, true);
+    idx_sweep<decltype(vol300), int16_t>(rng, vol300, "V", "char", 300, 1, w, true);
+    idx_sweep<decltype(app300), int16_t>(rng, app300, "T", "char", 300, 1, w, true);
+    idx_sweep<decltype(app300), i64>(rng, app300, "T", "char", 300, 1, w, false);
+    idx_sweep<decltype(app40k), int16_t>(rng, app40k, "T", "short", 40000, sizeof(short), w, true);
+    idx_sweep<decltype(app40k), uint16_t>(rng, app40k, "T", "short", 40000, sizeof(short), w, true);
+    idx_sweep<decltype(app40k), int32_t>(rng, app40k, "T", "short", 40000, sizeof(short), w, false);
+    idx_sweep<decltype(app40k), int8_t>(rng, app40k, "T", "short", 40000, sizeof(short), w, true);
+  }
+}
+
 static void c17_2d(std::mt19937_64& rng)
 {
   // multi-dimensional shape: outer index selects a row (row size = 4 elements)
@@ -571,6 +593,7 @@ int main(int argc, char** argv)
     c17_elem<long long>(rng, thorough);
     c17_elem<int*>(rng, thorough);
     c17_2d(rng);
+    c17_long(rng);
   } else {
     return 2;
   }
